@@ -275,12 +275,9 @@ def atomChars (atom chars : Term) : Result :=
       | none => .ok (selectCands [atom, chars] [[atom, charList a.toList]])
   | _ => .error (typeErr "atom" atom)
 
-/-- `e < 0 || e > unicode.MaxRune` -/
-def codeOutOfRange (e : Int) : Prop := e < 0 ∨ e > 0x10FFFF
-instance (e : Int) : Decidable (codeOutOfRange e) := by unfold codeOutOfRange; infer_instance
-
-/-- element loop of `AtomCodes` when the atom is unbound (`sb.WriteRune`: a surrogate is written as U+FFFD
-    on the pinned tree; the repaired code rejects it, see `validRune`) -/
+/-- element loop of `AtomCodes` when the atom is unbound; a code must be a Unicode scalar value
+    (`e < 0 || e > unicode.MaxRune || !utf8.ValidRune(rune(e))`; the pinned tree let surrogates through
+    and `sb.WriteRune` turned them into U+FFFD — defect D21, repaired) -/
 def codesStrict : List Term → Except Term (List Char)
   | [] => .ok []
   | e :: es =>
@@ -299,7 +296,7 @@ def codesLax : List Term → Option Term
   | e :: es =>
     match e with
     | .var _ => codesLax es
-    | .int i => if codeOutOfRange i then some (representationErr "character_code") else codesLax es
+    | .int i => if validRune i then codesLax es else some (representationErr "character_code")
     | _ => some (typeErr "integer" e)
 
 def atomCodes (atom codes : Term) : Result :=
